@@ -177,7 +177,7 @@ def extension_lemmas(repo):
         sha[key] = hashlib.sha256(p.encode()).hexdigest()
         t1 = time.time()
         try:
-            lang = R.language(p, fl | re.DOTALL if False else fl, 'fullmatch', at_start=False)
+            lang = R.language(p, fl, 'fullmatch', at_start=False, over_approx=True)
             if key == 'Math.pattern':
                 need = z3.Concat(R.full(), R.lit('$'), R.full())
             else:
